@@ -181,6 +181,8 @@ pub fn walk_check(which: Which, start: &Pos, moves: &[Move], st: &mut Stats) -> 
             Which::C02 => {
                 let s = gen_all(&b, hasher());
                 c02_node(&b, &p, &s, false)?;
+                let sc = gen_caps(&b, hasher());
+                c02_node(&b, &p, &sc, false).map_err(|m| format!("{} [capture-only generation]", m))?;
                 if c02_nontrivial(&p, parent_was_promo, st) {
                     st.nontrivial(fp(&(&p, parent_was_promo)));
                 }
@@ -324,6 +326,10 @@ fn enum_node(which: Which, p: &Pos, st: &mut Stats) -> CaseResult {
         Which::C02 => {
             let s = gen_all(&b, hasher());
             c02_node(&b, p, &s, false)?;
+            // the successors of the capture-only mode are successors too (which of them must exist
+            // is C13's subject; each one that is handed out must be the right position)
+            let sc = gen_caps(&b, hasher());
+            c02_node(&b, p, &sc, false).map_err(|m| format!("{} [capture-only generation]", m))?;
             if c02_nontrivial(p, false, st) {
                 st.nontrivial(fp(p));
             }
